@@ -123,7 +123,7 @@ def single_source(prog, cd, rep, kinds, rule="segments-single-source"):
                     elif isinstance(val, ast.Subscript) and isinstance(val.slice, ast.Slice) and norm(val.slice.lower) == f"{dv}.start" and norm(val.slice.upper) == f"{dv}.stop":
                         good = True
                     elif isinstance(val, ast.Call):
-                        k = un.inline_helper(val) if isinstance(val.func, ast.Attribute) and norm(val.func.value) == "self" else None
+                        k = un.packed_any(val) if isinstance(val.func, ast.Attribute) and (norm(val.func.value) == "self" or norm(val.func).endswith("rec.fromarrays")) else None
                         if k and len(k) == 3:
                             good = all(norm(a.slice.lower) == f"{dv}.start" and norm(a.slice.upper) == f"{dv}.stop" for a in k[2])
                 else:
